@@ -1,4 +1,5 @@
 import Qryn.Proofs.ProfDiffE2E
+import Qryn.Proofs.ProfWrap64
 import Qryn.Gen.ProfTreeShape
 /-! # C16 — profile call trees conserve weight from ingest to flame graph
 
@@ -522,6 +523,113 @@ theorem diff_end_to_end (hnr : NeverRoot nid) (Ps Qs : List Profile) (j : Nat)
 example : SideFacts [⟨0, 5, 77, 1, 4⟩, ⟨77, 6, 88, 3, 3⟩] ∧ SideFacts [⟨0, 5, 77, 2, 9⟩, ⟨77, 7, 99, 7, 7⟩]
     ∧ Compatible [⟨0, 5, 77, 1, 4⟩, ⟨77, 6, 88, 3, 3⟩] [⟨0, 5, 77, 2, 9⟩, ⟨77, 7, 99, 7, 7⟩] := by
   refine ⟨⟨by decide, by decide, by decide, by decide⟩, ⟨by decide, by decide, by decide, by decide⟩, by unfold Compatible; decide⟩
+
+
+/-! ## the laws over `int64` (`BitVec 64`): what the code computes with wrap-around addition
+
+`wrap = BitVec.ofInt 64`. The `…64` definitions (`Qryn/Prof/Wrap64.lean`) are the tree builder, the projection, the
+ClickHouse GROUP BY, `MergeTrie` and `Total` with every `+` the 64-bit one. `int64_simulation` says they compute the
+wrap of what the `Int` model computes (no branch looks at a weight), so each conservation law holds of the 64-bit
+values as an equation of `BitVec 64` — also when the true sums exceed the `int64` range. The ORDER statements
+(`levels_nest`, `flamegraph_nests`, `diff_levels_nest`) are about integers: they hold of the code's values as long as
+the sums stay inside the range (`int64_exact_in_range`; non-negative values whose grand total is below 2^63). -/
+
+/-- **int64_simulation.** The 64-bit computation is the image of the `Int` model under `wrap`. -/
+theorem int64_simulation (P : Profile) (j : Nat) (T R : List Row) :
+    (treeMap P.ntypes (visits nid k na P)).map Node.wrap = treeMap64 P.ntypes ((visits nid k na P).map Visit.wrap)
+      ∧ (∀ n : Node, (typeRow j n).wrap = typeRow64 j n.wrap)
+      ∧ (mergeTrie T R).map Row.wrap = mergeTrie64 (T.map Row.wrap) (R.map Row.wrap)
+      ∧ (sqlGroup R).map Row.wrap = sqlGroup64 (R.map Row.wrap)
+      ∧ wrap (rootTotal T) = rootTotal64 (T.map Row.wrap)
+      ∧ wrap (valueSum P j) = valueSum64 (P.samples.map (fun s => s.vals.map wrap)) j :=
+  ⟨treeMap_wrap _ _, typeRow_wrap j, mergeTrie_wrap T R, sqlGroup_wrap R, rootTotal_wrap T, valueSum_wrap P j⟩
+
+/-- inside the `int64` range the bit pattern is the integer: the `Int` theorems then speak about the code's values -/
+theorem int64_exact_in_range (x : Int) (h : -2 ^ 63 ≤ x) (h' : x < 2 ^ 63) : (wrap x).toInt = x := wrap_exact x h h'
+
+/-- **node_conservation_int64.** `node_conservation` as an equation of `int64` values. -/
+theorem node_conservation_int64 (hnr : NeverRoot nid) (P : Profile) (hc : NoCollision nid k na [P])
+    (r : Node) (hr : r ∈ storedRows nid k na P) (j : Nat) (hj : j < P.ntypes) :
+    (typeRow64 j r.wrap).total = (typeRow64 j r.wrap).self
+      + sumTotals64 (children64 ((storedRows nid k na P).map (fun n => typeRow64 j n.wrap)) r.node) := by
+  have h := node_conservation nid k na hnr P hc r hr j hj
+  have e1 : (storedRows nid k na P).map (fun n => typeRow64 j n.wrap) = (typeRows j (storedRows nid k na P)).map Row.wrap := by
+    simp only [typeRows, List.map_map]
+    apply List.map_congr_left
+    intro n _
+    exact (typeRow_wrap j n).symm
+  rw [e1, ← children_wrap, ← sumTotals_wrap, ← typeRow_wrap]
+  show wrap (ntotal j r) = wrap (nself j r) + wrap _
+  rw [← wrap_add, h]
+  congr 2
+  unfold sumTotals children typeRows
+  rw [List.filter_map, List.map_map]
+  rfl
+
+/-- **root_total_int64.** -/
+theorem root_total_int64 (hnr : NeverRoot nid) (P : Profile)
+    (hc : NoCollision nid Gen.ProfTreeShape.emptyStackFrame na [P]) (j : Nat) (hj : j < P.ntypes) :
+    rootTotal64 ((storedRows nid Gen.ProfTreeShape.emptyStackFrame na P).map (fun n => typeRow64 j n.wrap))
+      = valueSum64 (P.samples.map (fun s => s.vals.map wrap)) j := by
+  have h := root_total nid na hnr P hc j hj
+  have e1 : (storedRows nid Gen.ProfTreeShape.emptyStackFrame na P).map (fun n => typeRow64 j n.wrap)
+      = (typeRows j (storedRows nid Gen.ProfTreeShape.emptyStackFrame na P)).map Row.wrap := by
+    simp only [typeRows, List.map_map]
+    apply List.map_congr_left
+    intro n _
+    exact (typeRow_wrap j n).symm
+  rw [e1, ← rootTotal_wrap, ← valueSum_wrap, ← h]
+  congr 1
+  unfold rootTotal sumTotals children typeRows
+  rw [List.filter_map, List.map_map]
+  rfl
+
+/-- **merged_conservation_int64.** The tree `MergeTrie` holds (64-bit sums of the rows of any list of profiles)
+    conserves weight at every node, as an equation of `int64` values. -/
+theorem merged_conservation_int64 (hnr : NeverRoot nid) (Ps : List Profile) (j : Nat) (hj : ∀ P ∈ Ps, j < P.ntypes)
+    (hc : NoCollision nid k na Ps) :
+    ∀ e ∈ mergeTrie64 [] ((inputRows (nid := nid) (k := k) (na := na) j Ps).map Row.wrap),
+      e.total = e.self + sumTotals64 (children64 (mergeTrie64 [] ((inputRows (nid := nid) (k := k) (na := na) j Ps).map Row.wrap)) e.node) := by
+  have hs := mergeTrie_wrap [] (inputRows (nid := nid) (k := k) (na := na) j Ps)
+  simp only [List.map_nil] at hs
+  rw [← hs]
+  intro e he
+  obtain ⟨e0, he0, rfl⟩ := List.mem_map.mp he
+  rw [← children_wrap, ← sumTotals_wrap]
+  show wrap e0.total = wrap e0.self + wrap (sumTotals (children _ e0.node))
+  rw [← wrap_add, ← merged_conservation nid k na hnr Ps j hj hc e0 he0]
+
+/-- **merged_root_total_int64.** `Tree.Total()` = the 64-bit sum of all sample values of all the profiles. -/
+theorem merged_root_total_int64 (hnr : NeverRoot nid) (Ps : List Profile) (j : Nat) (hj : ∀ P ∈ Ps, j < P.ntypes)
+    (hc : NoCollision nid Gen.ProfTreeShape.emptyStackFrame na Ps) :
+    rootTotal64 (mergeTrie64 [] ((inputRows (nid := nid) (k := Gen.ProfTreeShape.emptyStackFrame) (na := na) j Ps).map Row.wrap))
+      = sum64 (Ps.map (fun P => valueSum64 (P.samples.map (fun s => s.vals.map wrap)) j)) := by
+  have hs := mergeTrie_wrap [] (inputRows (nid := nid) (k := Gen.ProfTreeShape.emptyStackFrame) (na := na) j Ps)
+  simp only [List.map_nil] at hs
+  rw [← hs, ← rootTotal_wrap, merged_root_total nid na hnr Ps j hj hc, wrap_sum, List.map_map]
+  congr 1
+  apply List.map_congr_left
+  intro P _
+  exact valueSum_wrap P j
+
+/-- **merge_sums_int64.** Every node of the 64-bit merged tree carries the 64-bit sums of the rows with its key. -/
+theorem merge_sums_int64 (R : List Row) :
+    ∀ e ∈ mergeTrie64 [] (R.map Row.wrap),
+      e.total = sum64 (((R.map Row.wrap).filter (fun r => decide ((r.parent, r.node) = (e.parent, e.node)))).map (·.total))
+      ∧ e.self = sum64 (((R.map Row.wrap).filter (fun r => decide ((r.parent, r.node) = (e.parent, e.node)))).map (·.self)) := by
+  have hs := mergeTrie_wrap [] R
+  simp only [List.map_nil] at hs
+  rw [← hs]
+  intro e he
+  obtain ⟨e0, he0, rfl⟩ := List.mem_map.mp he
+  have := mergeTrie_entry R he0
+  constructor
+  · show wrap e0.total = _
+    rw [this.1, fsum, wrap_sum, List.filter_map, List.map_map, List.map_map]
+    rfl
+  · show wrap e0.self = _
+    rw [this.2, fsum, wrap_sum, List.filter_map, List.map_map, List.map_map]
+    rfl
 
 /-! ## the hypotheses are satisfiable (and hold on a concrete case with the real `getNodeId`) -/
 
